@@ -158,3 +158,16 @@ def register4(w):
         if c is not None:
             c.raises = dict(c.raises, **MAL)
             c.note = (c.note + "; " if c.note else "") + "IndexError/ValueError only for malformed link-file content (outside the properties' quantifier)"
+
+    register_fileext(w)
+
+
+def register_fileext(w):
+    w.contract("pygopherd/fileext.py::extstrip", params={"file": "str", "filetype": "opt[str]"}, globals={"typemap": "dict[str,list[str]]"},
+               modifies=[], raises={}, returns="str",
+               loops={0: dict(invariant=["True"], havoc=["possible", "extindex"])},
+               ensures=["file.startswith(result)", "implies(filetype is None or filetype == '', result == file)",
+                        "implies(filetype is not None and filetype not in G.typemap, result == file)"],
+               props=["C08", "C07"],
+               note="extension stripping only ever removes a suffix of the file name (one of the extensions registered for the entry's MIME type); "
+                    "without a type, or for a type without registered extensions, the name is kept")
